@@ -575,6 +575,35 @@ namespace
         c07_case_structured(R, rng, g, false, 1);
     }
 
+    // one axis longer than 32 768 / 65 536 nodes (narrow index or offset types), the long axis looped half of the time: profiles of
+    // 66-140 k nodes, rasters of 2-3 x 33-70 k nodes and their transposes
+    void c07_case_long_axis(Runner& R, Rng& rng)
+    {
+        GridSpec g;
+        const std::size_t longn = static_cast<std::size_t>(rng.chance(0.5) ? rng.range(32769, 36000) : rng.range(65537, 70000));
+        const bool loop_long = rng.chance(0.6);
+        g.dy = rng.chance(0.5) ? 1.0 : rng.logu(0.05, 50.0);
+        g.dx = rng.chance(0.5) ? g.dy : rng.logu(0.05, 50.0);
+        if (family == Family::profile)
+        {
+            g.rows = 1;
+            g.cols = longn * 2;
+            NS e = loop_long ? NS::looped : rand_border(rng, false);
+            g.border = { { e, loop_long ? NS::looped : rand_border(rng, false), NS::core, NS::core } };
+        }
+        else
+        {
+            const bool wide = rng.chance(0.5);
+            g.rows = wide ? 2 + rng.below(2) : longn;
+            g.cols = wide ? longn : 2 + rng.below(2);
+            NS lr = (loop_long && wide) ? NS::looped : rand_border(rng, false);
+            NS tb = (loop_long && !wide) ? NS::looped : rand_border(rng, false);
+            g.border = { { lr, lr == NS::looped ? NS::looped : rand_border(rng, false), tb, tb == NS::looped ? NS::looped : rand_border(rng, false) } };
+        }
+        R.count("c07.long_axis_grids");
+        c07_case_structured(R, rng, g, false, 1);
+    }
+
     void c07_case_random(Runner& R, Rng& rng, std::size_t max_side)
     {
         GridGenOpts o;
@@ -1247,6 +1276,8 @@ main(int argc, char** argv)
                                const long widx = k - n_enum_local;  // 0.. : the first `n_wide` random cases sweep the column counts
                                if (do07 && family == Family::raster && widx < n_wide)
                                    c07_case_wide(R_, rng, static_cast<std::size_t>(7 + (widx * a.nshards + a.shard)));
+                               else if (do07 && widx == n_wide && enumdiv == 1)
+                                   c07_case_long_axis(R_, rng);
                                else if (do07 && (!do17 || rng.chance(0.5)))
                                    c07_case_random(R_, rng, max_side);
                                else if (do17)
